@@ -120,7 +120,8 @@ def c13(tier, seed):
     ck.add(run_cases(prog, onestep.run_step_case, ucases), 'every operation (wrong types, root, composites) on every path from every well-formed tree')
     scases = step_cases(['mem'] if tier == 'quick' else ['mem', 'alt:/a'], 'USYM', ALL_OPS, ['C13'], tier, seed, dlens=[1])
     ck.add(run_cases(prog, onestep.run_step_case, scases), 'same in symbolic-name mode (names are solver variables incl. multi-byte characters; siblings may be prefixes of each other)')
-    rc = reader_cases(tier, 'C13') + reader_cases(tier, 'C13', release=True)
+    # (the 4-step scripts of the thorough tier run with dev arithmetic; release arithmetic at the 3-step size)
+    rc = reader_cases(tier, 'C13') + reader_cases('quick', 'C13', release=True)
     ck.add(run_cases(prog, handles.run_reader_case, rc), 'reader scripts with any 64-bit offset, zero-length buffers; dev and release arithmetic')
     ck.add(run_cases(prog, handles.run_writer_case, writer_cases(tier, 'C13')), 'writer sessions')
     ck.add(run_cases(prog, handles.run_lifecycle_case, [{'cfg': c} for c in ['mem', 'alt', 'ovl_upper', 'ovl_lower']]), 'handles used after their file was removed')
@@ -148,7 +149,7 @@ def c13(tier, seed):
     wsh = [sh for sh in shapes(u3) if len(sh) >= 2]
     wcases = [{'universe': 'U3', 'config': c, 'state': sh} for c in (('mem',) if tier == 'quick' else ('mem', 'alt')) for sh in wsh]
     ck.add(run_cases(prog_a, twins.run_walk_case, wcases), 'async port: walk_dir streams consumed item by item with a removal in between (pending futures 0/1/2)')
-    acases = [{'clen': c_, 'k': 3 if tier == 'quick' else 4, 'first': f1, 'second': f2} for c_ in range(0, 3) for f1 in range(4) for f2 in range(4)]
+    acases = [{'clen': c_, 'k': 3 if (tier == 'quick' or c_ >= 2) else 4, 'first': f1, 'second': f2} for c_ in range(0, 3) for f1 in range(4) for f2 in range(4)]
     ck.add(run_cases(prog_a, asynck.run_async_reader_case, acases), 'async port: reader kernels on symbolic scripts')
     ck.bounds = {'universe': 'U5 (+U8 thorough)', 'reader': 'content 0..3/4 bytes, scripts of 3/4 steps, any 64-bit offset', 'overlay': 'UO3, 2 layers, k<=2',
                  'threads': '2 threads x 1 call on /a, /a/b of %d trees, all schedules' % len(tshapes), 'async': 'walks over U3 trees with >= 2 entries; reader content 0..2 bytes',
